@@ -11,7 +11,7 @@ import re
 import shutil
 import tempfile
 
-from .. import build, common as C, mutate as M, schema as S
+from .. import build, common as C, mutate as M, schema as S, split as SP
 from ..findings import Report
 
 TIMEOUT = 25
@@ -343,15 +343,44 @@ def main():
             od = os.path.join(jd, "out")
             os.makedirs(od)
             xp = os.path.join(jd, "schema.xml")
+            extra = []
+            if idx % 3 == 0:
+                # every third input is spread over several files (XInclude of the <types> block / of each message / both
+                # / through an intermediate file) when its text still has the shape that allows it: diagnostics about
+                # entities of an included file are produced long after that file's parser is gone
+                try:
+                    sp = SP.split(data.decode(), ("types", "messages", "both", "nested")[(idx // 3) % 4])
+                except UnicodeDecodeError:
+                    sp = None
+                if sp is not None:
+                    main = sp.main
+                    for n in sp.files:
+                        main = main.replace('href="%s"' % n, 'href="j%d_%s"' % (idx, n))
+                    for n, t in sp.files.items():
+                        for n2 in sp.files:
+                            t = t.replace('href="%s"' % n2, 'href="j%d_%s"' % (idx, n2))
+                        fp = os.path.join(cwd, "j%d_%s" % (idx, n))
+                        C.write_file(fp, t)
+                        extra.append(fp)
+                    data = main.encode()
             with open(xp, "wb") as f:
                 f.write(data)
+            # what explains a resource outcome may sit in an included file
+            alltext = data + (b"".join(b"\n<!-- included file -->\n" + t.encode() for t in sp.files.values()) if extra else b"")
             rc, o, _, to = C.run([exe, "--output-dir", od, xp], timeout=TIMEOUT, env=env, cwd=cwd)
             out = o.decode(errors="replace")
-            v = classify(rc, to, out, od, data)
+            v = classify(rc, to, out, od, alltext)
             if v and v[0] == "hang":
                 rc, o, _, to = C.run([exe, "--output-dir", od, xp], timeout=TIMEOUT * 3, env=env, cwd=cwd)
                 out = o.decode(errors="replace")
-                v = classify(rc, to, out, od, data)
+                v = classify(rc, to, out, od, alltext)
+            for fp in extra:
+                try:
+                    os.remove(fp)
+                except OSError:
+                    pass
+            if extra:
+                job = (name + "+multi-file", alltext, desc)
             first = ""
             mm = re.search(r"Error\S*: (?:\S+?:\d+:\d+: )?(.*)", out)
             if mm:
@@ -375,6 +404,7 @@ def main():
             elif len(rep.cov["samples"]) < 5 and rc == 1 and len(desc) > 8 and desc != "unmutated":
                 rep.sample({"input": name, "mutation": desc, "exit": rc, "diagnostic": out.strip().splitlines()[-1][:200] if out.strip() else ""})
         rep.cov["mutants"] = nmut
+        rep.cov["multi_file_inputs"] = sum(1 for (name, _, _), _, _, _, _ in results if name.endswith("+multi-file"))
         rep.cov["accepted"] = sum(c for (e, f), c in outcomes.items() if e == "exit0")
         rep.cov["rejected_with_diagnostic"] = sum(c for (e, f), c in outcomes.items() if e == "exit1")
         rep.cov["distinct_diagnostics"] = len(outcomes)
